@@ -26,7 +26,10 @@ ASSUMPTIONS = [
   "screens during the transmission of a roll-up / paint-on line may run ahead of the decoder up to the end of that line (never behind by more than 2 frames, never ahead of the line's time code)",
   "a roll-up row's paragraph must begin in the window of its CR (RUx when there is none), as DESIGN.md clause 3",
   "streams on which 'the redundant copy must be the very next word' and 'null padding / other-channel words do not break a doubled pair' decode differently are skipped (counted as abstain:dup-ambiguous)",
-  "not generated: tab offsets in the middle of a row, rows past column 32, BS/extended characters in column 32, text split across SCC lines inside a row, overlapping SCC lines, mode changes without an intervening EDM, ENM omitted on a non-empty non-displayed memory, T1/T2 text mode, field-2 codes",
+  "not generated: tab offsets in the middle of a row, rows past column 32, BS/extended characters in column 32, text split across SCC lines inside a row, overlapping SCC lines, mode changes without an intervening EDM, ENM omitted on a non-empty non-displayed memory, T1/T2 text mode, field-2 codes, two identical control pairs separated only by padding or channel-2 data",
+  "a roll-up row without PAC (CR then text) is generated only when the pen already is white/plain (47 CFR 15.119(h)(1) resets attributes at the end of a row; the reader keeps them - not judged)",
+  "bundled files: screens containing a row that received more than 32 glyphs are not compared; files whose lines overlap (next time code earlier than the end of the previous line) are skipped",
+  "a row erased by PAC + DER may vanish from the PAC's window on (the pair is taken as the trigger)",
   "paint-on rewrites of an occupied row only as PAC indent 0 + DER + text (thorough tier)",
   "roll-up base rows other than 15 only in the thorough tier (expected known finding F-SCC-ROLLUP-ROW15)",
   "glyph-ambiguous extended characters accept the alternatives listed in vt/ref/c608_table.py",
@@ -340,10 +343,6 @@ def check_stream(ctx, text, text_align, meta=None, tier="quick"):
       elif f > case.line_last[li] + 2:
         viol("change-outside-transmission", "paragraph %s %s at frame %d: no word is transmitted within 2 frames before it "
              "(line %s ends at frame %d)" % (q.pid, label, f, case.lines[li]["tc"], case.line_last[li]))
-      elif f == case.line_T[li] and not (li > 0 and f <= case.line_last[li - 1] + 2):
-        # a change exactly at T would mean word 0 acted before being received; inside the window [T, T+2] by the
-        # letter of the window rule, so tolerated
-        ctx.count("note:change-at-line-timecode")
 
   # ---- clause 1 + 5: settled screens -----------------------------------------------------------------------------
   settled = set()
@@ -359,7 +358,6 @@ def check_stream(ctx, text, text_align, meta=None, tier="quick"):
         settled.add(nxt - 1)
   if case.lines:
     settled.add(case.line_T[0] - 1)
-  max_depth_rows = {}
   for F in sorted(settled):
     if R.has_overflow(dec.screen_at(F)):
       ctx.count("abstain:screen-with-row-longer-than-32-columns")
